@@ -462,10 +462,12 @@ class MainLoop:
         widget.mouse_event((15, 5), 'mouse press', 1, 5, 4, focus=True)
         >>> ml._update([], [])
         """
+        # the size is asked for again whatever the input filter does with the event
+        resized = "window resize" in keys
         if keys := self.input_filter(keys, raw):
             self.process_input(keys)
-            if "window resize" in keys:
-                self.screen_size = None
+        if resized or "window resize" in keys:
+            self.screen_size = None
 
     def _run_screen_event_loop(self) -> None:
         """
@@ -496,6 +498,7 @@ class MainLoop:
                 if not keys and next_alarm and next_alarm[0] - time.time() <= 0:
                     break
 
+            resized = "window resize" in keys
             if keys := self.input_filter(keys, raw):
                 self.process_input(keys)
 
@@ -510,7 +513,7 @@ class MainLoop:
                 else:
                     next_alarm = None
 
-            if "window resize" in keys:
+            if resized or "window resize" in keys:
                 self.screen_size = None
 
     def _test_run_screen_event_loop(self):
